@@ -314,15 +314,36 @@ def _result_is_flattened(fc: FnCls, f: FuncInfo) -> bool:
 
 # ------------------------------------------------------------------------------------------ AC5
 def ctx_option_attrs(fc: FnCls) -> Set[str]:
-    """ctx attributes that hold the backward options: assigned in forward from an expression that mentions
-    the `bck_options` parameter"""
+    """ctx attributes that hold the backward options: assigned in forward from an expression that mentions the `bck_options`
+    parameter - directly, or through a local dictionary that was built from / updated with it (`d = dict(..); d.update(bck_options);
+    ctx.x = d`)"""
     out = set()
-    for s in own_nodes(fc.forward.node):
+    fn = fc.forward.node
+    tainted = {"bck_options"}
+    changed = True
+    while changed:
+        changed = False
+        for s in own_nodes(fn):
+            if isinstance(s, ast.Assign) and len(s.targets) == 1 and isinstance(s.targets[0], ast.Name) and s.targets[0].id not in tainted \
+                    and names_loaded(s.value) & tainted:
+                tainted.add(s.targets[0].id)
+                changed = True
+            if isinstance(s, ast.Expr) and isinstance(s.value, ast.Call) and isinstance(s.value.func, ast.Attribute) and s.value.func.attr in ("update", "setdefault") \
+                    and isinstance(s.value.func.value, ast.Name) and s.value.func.value.id not in tainted \
+                    and any(names_loaded(a) & tainted for a in list(s.value.args) + [k.value for k in s.value.keywords]):
+                tainted.add(s.value.func.value.id)
+                changed = True
+    for s in own_nodes(fn):
         if isinstance(s, ast.Assign):
             for t in s.targets:
                 if isinstance(t, ast.Attribute) and isinstance(t.value, ast.Name) and t.value.id == fc.ctx:
-                    if "bck_options" in names_loaded(s.value):
+                    if names_loaded(s.value) & tainted:
                         out.add(t.attr)
+        if isinstance(s, ast.Expr) and isinstance(s.value, ast.Call) and isinstance(s.value.func, ast.Attribute) and s.value.func.attr == "update":
+            recv = s.value.func.value
+            if isinstance(recv, ast.Attribute) and isinstance(recv.value, ast.Name) and recv.value.id == fc.ctx \
+                    and any(names_loaded(a) & tainted for a in s.value.args):
+                out.add(recv.attr)
     return out
 
 
@@ -957,6 +978,119 @@ def ac9_connected_copies(fc: FnCls, R: RuleResult) -> int:
 MERGING_CLASSES = {"solve_torchfcn", "symeig_torchfcn", "_SolveIVP", "_Quadrature", "_MCQuad"}
 
 
+def abstract_option_run(model: Model, fi: FuncInfo, watch_calls=()):
+    """Abstract evaluation (domains/dictsem.py) of the dictionary statements of a function that receives forward options (a parameter
+    or **kwargs named fwd_options / options) and possibly `bck_options`.  Returns (environment at the end, {watched call: abstract
+    value of its ** splat at the moment of the call}, the initial forward / backward dictionaries)."""
+    from ..domains.dictsem import DictInterp, ADict, Unsupported, Raised, _Return
+    helpers = {}
+    try:
+        misc = model.module("xitorch/_utils/misc.py")
+        for nm in ("set_default_option", "get_and_pop_keys"):
+            if nm in misc.functions:
+                helpers[nm] = misc.functions[nm].node
+    except Exception:
+        pass
+
+    class _I(DictInterp):
+        def call(self, c):
+            fn = ast.unparse(c.func).split(".")[-1]
+            if fn in helpers and isinstance(c.func, ast.Name):
+                hn = helpers[fn]
+                ps = [a.arg for a in hn.args.args]
+                sub = _I({p_: self.ev(a) for p_, a in zip(ps, c.args)})
+                return sub.call_function(hn)
+            return super().call(c)
+    fwd0 = {"method": "$m", "f1": "$F1", "shared": "$Fs"}
+    bck0 = {"shared": "$Bs", "b1": "$B1"}
+    names = fi.all_params() + ([fi.kwarg()] if fi.kwarg() else [])
+    env = {}
+    if "bck_options" in names:
+        env["bck_options"] = ADict(bck0, "bck_options")
+    fwd_param = next((n_ for n_ in ("fwd_options", "options") if n_ in names), None)
+    if "method" in names:
+        fwd0 = {k: v for k, v in fwd0.items() if k != "method"}          # the method travels separately
+    if fwd_param:
+        env[fwd_param] = ADict(fwd0, fwd_param)
+    if "method" in names:
+        env["method"] = "$m"
+    it = _I(env)
+    snaps = {}
+
+    def run(stmts):
+        for st in stmts:
+            for c in watch_calls:
+                if any(n_ is c for n_ in ast.walk(st)):
+                    for k in c.keywords:
+                        if k.arg is None:
+                            try:
+                                v = it.ev(k.value)
+                                snaps[c] = dict(v.data) if isinstance(v, ADict) else None
+                            except (Unsupported, Raised):
+                                snaps[c] = None
+            if isinstance(st, ast.With):
+                run(st.body)
+                continue
+            if isinstance(st, (ast.If, ast.For, ast.While, ast.Try)):
+                for blk in (getattr(st, "body", []), getattr(st, "orelse", [])):
+                    run(blk)
+                continue
+            if isinstance(st, (ast.FunctionDef, ast.Return)):
+                continue
+            try:
+                it.run([st])
+            except (Unsupported, Raised, _Return):
+                for n_ in ast.walk(st):
+                    if isinstance(n_, ast.Name) and isinstance(n_.ctx, ast.Store) and isinstance(it.env.get(n_.id), ADict):
+                        del it.env[n_.id]
+    run(fi.node.body)
+    return it.env, snaps, (env.get(fwd_param), env.get("bck_options"), fwd0, bck0, fwd_param)
+
+
+def option_merge_semantic(model: Model, fc: FnCls, raw: bool = False):
+    """With symbolic forward options {method, f1, shared} and bck_options {shared, b1}, the dictionary that ends up on ctx must contain
+    every bck_options entry with the caller's value and otherwise either exactly the forward options (inherited, `method` included) or
+    constant defaults.  Returns "" if so, a reason if not, None if the statements cannot be interpreted."""
+    from ..domains.dictsem import ADict
+    fw = fc.forward
+    envf, _snaps, (fwd_d, bck_d, fwd0, bck0, fwd_param) = abstract_option_run(model, fw)
+    if bck_d is None:
+        return None
+
+    class _E:
+        pass
+    it = _E()
+    it.env = envf
+    env = {"bck_options": bck_d}
+    if fwd_param:
+        env[fwd_param] = fwd_d
+    saved = {k: v for k, v in it.env.items() if k.startswith(fc.ctx + ".") and isinstance(v, ADict)}
+    if raw:
+        return {k: dict(v.data) for k, v in saved.items()}
+    if not saved:
+        return None
+    reasons = []
+    for k, d in saved.items():
+        got = d.data
+        if any(got.get(bk) != bv for bk, bv in bck0.items()):
+            reasons.append("%s = %s does not give the caller's bck_options %s precedence" % (k, got, bck0))
+            continue
+        rest = {a: b for a, b in got.items() if a not in bck0}
+        inherited = {a: b for a, b in fwd0.items() if a not in bck0}
+        if fwd_param and rest == inherited:
+            if d.ident in (env["bck_options"].ident, env[fwd_param].ident):
+                reasons.append("%s is the caller's dictionary itself, not a copy" % k)
+                continue
+            return ""
+        if not any(str(v).startswith("$F") or v == "$m" for v in rest.values()):
+            if d.ident == env["bck_options"].ident:
+                reasons.append("%s is the caller's bck_options itself, not a copy" % k)
+                continue
+            return ""
+        reasons.append("%s = %s inherits only part of the forward options %s" % (k, got, fwd0))
+    return reasons[0] if reasons else None
+
+
 def option_hygiene(model: Model, fc: FnCls, R: RuleResult) -> int:
     """OPT rules of rules/options.py for one Function plus: the merge exists, and the caller's bck_options dict is never mutated in
     place nor stored itself on ctx (a shared default `{}` or a caller-owned dict would carry options into later calls)."""
@@ -968,8 +1102,15 @@ def option_hygiene(model: Model, fc: FnCls, R: RuleResult) -> int:
     # _RootFinder is exempt by design: its forward options (root finder) and backward options (linear solver) are different
     # namespaces and are not merged
     if n == 0 and fc.name in MERGING_CLASSES:
-        R.bad(fw, fw.node, "the saved backward options are not built as set_default_option(<forward options>, bck_options)")
+        # no literal set_default_option(..) call: decide the merge semantically (any spelling: dict(..) + update, {**a, **b}, a helper)
+        verdict = option_merge_semantic(model, fc)
         n += 1
+        if verdict is None:
+            R.undecided(fw, fw.node, "cannot find how the saved backward options are built from the forward options and bck_options")
+        elif verdict == "":
+            R.ok(fw.fq, "%s.forward: the saved backward options are <forward options or constant defaults> overridden by bck_options (abstract evaluation of the dictionary statements)" % fc.name)
+        else:
+            R.bad(fw, fw.node, "the saved backward options are not <defaults> overridden by the caller's bck_options: %s" % verdict)
     sites = [(fw, "bck_options")]
     for f, call in apply_sites(model, fc):
         if "bck_options" in f.params() + f.kwonly() and f.module.relpath == fw.module.relpath and f.cls is None and f.parent is None:
